@@ -89,6 +89,7 @@ func runC05(c *Ctx, r *Report) {
 	r.Rule("C05.R3", "registers do not escape: an object that may be a *Register passes object.Value/CopyRegister before it is stored into an array element, a map key/value or a binding")
 	r.Rule("C05.R4", "rewriter/visitor agreement: type assertions inside ast.Modify on results of the callback use the two-value form (the register rewriter substitutes *Register for *Identifier)")
 	r.Rule("C05.R6", "no use after release: a function that acquires and releases a register on a long-lived environment does not return an object that may still be that register (directly or inside a ReturnValue): the slot is reused by the next loop")
+	r.Rule("C05.R7", "no stale alias: in a function that writes a register slot (through (*Register).Ptr()), no loop-carried value may be an unsanitised evaluation result (a *Register kept across iterations changes when the slot is rewritten)")
 	r.Rule("C05.R5", "fallback instead of failure: when setupRegister reports !ok the caller takes the variable path instead of returning an error")
 
 	makeReg := c.Fn("object", "Environment.MakeRegister")
@@ -342,6 +343,75 @@ func runC05(c *Ctx, r *Report) {
 		})
 	}
 	r.Floor("C05.R6", 4)
+
+	// R7 loop-carried registers in slot-writing functions
+	ptrFn := c.Fn("object", "Register.Ptr")
+	for _, fn := range c.ModuleSSAFuncs() {
+		writes := false
+		eachInstr(fn, func(in ssa.Instruction) {
+			st, ok := in.(*ssa.Store)
+			if !ok {
+				return
+			}
+			var fromPtr func(v ssa.Value, d int) bool
+			fromPtr = func(v ssa.Value, d int) bool {
+				if d > 4 {
+					return false
+				}
+				switch x := v.(type) {
+				case *ssa.Call:
+					return isCallTo(x, ptrFn)
+				case *ssa.Phi:
+					for _, e := range x.Edges {
+						if fromPtr(e, d+1) {
+							return true
+						}
+					}
+				}
+				return false
+			}
+			if fromPtr(st.Addr, 0) {
+				writes = true
+			}
+		})
+		if !writes {
+			continue
+		}
+		n := 0
+		for _, b := range fn.Blocks {
+			isHeader := false
+			for _, p := range b.Preds {
+				if b.Dominates(p) {
+					isHeader = true
+				}
+			}
+			if !isHeader {
+				continue
+			}
+			for _, in := range b.Instrs {
+				phi, ok := in.(*ssa.Phi)
+				if !ok {
+					break
+				}
+				if !t.spec.Carrier(phi.Type()) {
+					continue
+				}
+				n++
+				bad := false
+				for i, e := range phi.Edges {
+					if b.Dominates(b.Preds[i]) && t.May(e) { // back edge value
+						bad = true
+					}
+				}
+				r.Check(!bad, "C05.R7", ssaFuncName(fn), "loop-carried value "+phi.Comment, c.Pos(fn.Pos()),
+					"a value kept across iterations may be the register itself; it silently changes when the loop rewrites the register slot (continue/break then yield a later value)")
+			}
+		}
+		if n == 0 {
+			r.OkWhy("C05.R7", ssaFuncName(fn), "no loop-carried object values", c.Pos(fn.Pos()), "writes a register slot outside any loop")
+		}
+	}
+	r.Floor("C05.R7", 2)
 
 	c.checkModifyAssertions(r, "C05.R4")
 	r.Floor("C05.R4", 4)
